@@ -75,6 +75,10 @@ var anchorPatterns = map[string][]string{
 		`^criteria_ordering\.(shuffleCriteria)$`, `^criteria_ordering\.\(\*\w+\)\.OrderCriteria$`, `^satisfaction_levels\.\(\*IdealCoefficientSatisfactionLevels\)\.(Initialize|Next)$`,
 		`^owa\.(sortWeights|_sortWeightsMutate)$`, `^electreIII\.\(\*Matrix\)\.(Without|Slice|Filter)$`, `^utils\.\(\*ValueRange\)\.ScaleEqually$`, `^criteria_bounding\.scaleRange$`,
 		`^majority\.prepareRanking$`, `^(aspect_elimination|satisfaction)\.checkWithinSatisfactionLevels$`, `^main\.`,
+		// what the other three biases report against what they hand on
+		`^criteria_omission\.omitCriteria$`, `^criteria_omission\.\(\*CriteriaOmission\)\.Apply$`,
+		`^criteria_concealment\.\(\*CriteriaConcealment\)\.(Apply|addCriterion)$`, `^criteria_concealment\.(generateCriterionValuesForAlternatives|assignNewCriterionToAlternatives)$`,
+		`^criteria_mixing\.\(\*CriteriaMixing\)\.Apply$`, `^criteria_mixing\.(updateDMParams|updateAlternatives|prepareMixedCriterion)$`,
 	},
 	"C10": {`^global:`,
 
@@ -196,9 +200,14 @@ var fpExactRe = map[string][]*regexp.Regexp{
 	"C14": {regexp.MustCompile(`^satisfaction_levels\.`)},
 	"C04": {regexp.MustCompile(`^model\.\(\*?AlternativeResult\)\.rounded$`)},
 	"C03": {regexp.MustCompile(`^model\.\(\*?AlternativeResult\)\.rounded$`)},
+	// C18: a mixed value lies between its two components (ratio 1 gives c1 itself)
+	"C18": {regexp.MustCompile(`^criteria_mixing\.\(\*criteriaToMix\)\.mix$`)},
+	// C19/C09: the inline applier reports exactly new - old
+	"C19": {regexp.MustCompile(`^anchoring\.\(\*InlineAnchoringApplier\)\.ApplyAnchoring$`)},
+	"C09": {regexp.MustCompile(`^anchoring\.\(\*InlineAnchoringApplier\)\.ApplyAnchoring$`)},
 }
 
-var fpExactMin = map[string]int{"C16": 5, "C14": 10, "C04": 1, "C03": 1}
+var fpExactMin = map[string]int{"C16": 5, "C14": 10, "C04": 1, "C03": 1, "C18": 1, "C19": 1, "C09": 1}
 
 func fpExact(prop, key string) bool {
 	for _, re := range fpExactRe[prop] {
